@@ -231,6 +231,10 @@ def run_dimacs(case):
                                      stdin_text=None if case.get('via', 'file') == 'file' else text))
             except CLIError as e:
                 res.append(e)
+        printed = None
+        if case.get('via', 'file') == 'file' and not any(isinstance(r, CLIError) for r in res) and n <= 22:
+            # what the two tools print for this file, read by the harness's readers
+            printed = text_tables(['dimacs', path], n, "cnfgen/pbgen dimacs on {!r}".format(text[:200]))
     what = "cnfgen/pbgen dimacs on {!r}".format(text[:200])
     if isinstance(res[0], CLIError) or isinstance(res[1], CLIError):
         raise Violation("{}: a tool refuses a legal DIMACS file: {}".format(what, [str(r)[:80] for r in res]))
@@ -246,6 +250,12 @@ def run_dimacs(case):
         a = tt.first_row((t1 if t1 != want else t2) ^ want)
         raise Violation("{}: assignment {} is judged differently by the {} rendering and by the clauses of the file".format(what, tt.row_assignment(n, a), bad))
     labels = ['dimacs', case.get('via', 'file')]
+    if printed is not None:
+        for t, kind in zip(printed, ('DIMACS text printed by cnfgen', 'OPB text printed by pbgen')):
+            if t != want:
+                raise Violation("{}: assignment {} is judged differently by the {} and by the clauses of the file".format(
+                    what, tt.row_assignment(n, tt.first_row(t ^ want)), kind))
+        labels.append('printed-texts')
     if any(-l in c for c in clauses for l in c):
         labels.append('opposite-literals')
     if any(len(set(c)) < len(c) for c in clauses):
@@ -283,8 +293,8 @@ SUBCHECKS = [
              rule="every deterministic family of the catalogue through the library with formula_class=CNF and =OPB; same oracle",
              required_labels=['native-cardinality', 'native-equality']),
     SubCheck('dimacs', run_dimacs, strategy=strat_dimacs, enumerate_cases=enum_dimacs, quick=250, thorough=10000,
-             rule="the 'dimacs' sub-command of both tools on harness-written files and on stdin: CNFs with 1..8 variables, 0..7 clauses of width 0..5 with repeated and opposite literals (tautological clauses), empty clauses, unused variables; oracle: both renderings have the declared variable count and exactly the models of the clauses in the file (complete truth tables); non-trivial: >=1 clause",
-             required_labels=['opposite-literals', 'repeated-literals', 'empty-clause', 'stdin', 'file']),
+             rule="the 'dimacs' sub-command of both tools on harness-written files and on stdin: CNFs with 1..8 variables, 0..7 clauses of width 0..5 with repeated and opposite literals (tautological clauses), empty clauses, unused variables; oracle: both renderings - the objects, and for files also the texts the two tools print, read by the harness's DIMACS and OPB readers - have the declared variable count and exactly the models of the clauses in the file (complete truth tables); non-trivial: >=1 clause",
+             required_labels=['opposite-literals', 'repeated-literals', 'empty-clause', 'stdin', 'file', 'printed-texts']),
     SubCheck('large', run_large, strategy=strat_large, quick=500, thorough=20000,
              rule="every family through the library at realistic sizes (the instance generator of C10: php up to 40x30, graph families on gnm/regular/grid graphs up to 60 vertices, op 16, stone 14x6, vdw 60, ptn 300, random formulas, ...) with formula_class=CNF and =OPB; oracle: same class/count/names and the two renderings agree on ~110 sampled assignments (models of the CNF side found by a node-bounded DPLL, 1-3 flips around them, random ones of four densities, all-false, all-true), evaluated bit-parallel; non-trivial: >22 variables, a non-clausal OPB constraint, and the sample contains both satisfying and falsifying rows",
              required_labels=['sampled', 'sample-separates', 'models-found', 'native-cardinality']),
